@@ -154,7 +154,7 @@ package sender
 // Every data write that can reach the multiplexed writer stays within
 // maxMessageSize (262144): literal chunks, whole-file chunks, checksums.
 //@ func (*sender.mapStruct).ptr
-//@   ensures [length] err == nil ==> len(result) == max(l, 0)
+//@   ensures[C17] [length] err == nil ==> len(result) == max(l, 0)
 //@ func (*sender.Transfer).simpleSendToken
 //@   at[C17] (io.Writer).Write: assert [chunk-within-frame-limit] len(arg0) <= 262144
 //@   loop 0: invariant [literal-progress] 0 <= l && l <= n
